@@ -50,5 +50,6 @@ Holds14(v) ==
           /\ obs.cauth = [i \in 1..Len(req.clients) |-> <<req.clients[i].name, req.clients[i].token>>]
           /\ obs.hostname = obs.sid \o ".onion"
           /\ obs.stored = Stored(req, obs)
+          /\ obs.after = obs.stored         \* the key stays with the caller's object after remove() (a restart re-creates from it)
           /\ obs.del = obs.sid
 =============================================================================
